@@ -68,7 +68,7 @@ CLAIMED.update({
 
 CLAIMED.update({
  "C16": ("rolling-sim", "deterministic simulation: the appender's clock behind hook H4 driven by a seeded simulated clock (exact boundaries, multi-period jumps, month/year ends, leap days, stand-still, steps back), the exclusive interface as an operation history and the shared MakeWriter interface under seeded schedules (preemption at the next_date load/CAS and at the file lock); rolling reference model (A7) with an independent calendar as oracle",
-         "Seeded exploration of rotation kind x prefix/suffix x file limit x interface; after every phase the private directory is read back: each buffer occurs exactly once, whole, in per-thread order, in the file named (by an independent calendar routine) for the period of the rotating write or, for concurrent writers, the file being replaced; a boundary crossing creates exactly one new file however many threads write at that instant; stand-still and steps back create none; with a limit at most that many files remain and the oldest created are the ones removed (data in legitimately pruned files is not counted as lost). Sampling, not proof.",
+         "Seeded exploration of rotation kind x prefix/suffix x file limit x interface; after every phase the private directory is read back: each buffer occurs exactly once, whole, in per-thread order, in the file named (by an independent calendar routine) for the period of the rotating write or, for concurrent writers, the file being replaced; a boundary crossing creates exactly one new file however many threads write at that instant; stand-still and steps back create none; with a limit at most that many files remain and the oldest created are the ones removed (data in legitimately pruned files is not counted as lost). Foreign files and directories placed in the log directory beforehand must survive untouched. Sampling, not proof.",
          "Trusts: the rolling model and calendar in sim/tsim/src/rolling_sim.rs; the real file system on a private temp directory (runs with a file limit sleep 12 ms of real time per phase so that creation timestamps are distinguishable; this influences no scheduling choice).", "DESIGN.md 5 C16"),
 })
 
